@@ -63,7 +63,6 @@ class TablerowNode(Node):
         name = self.expression.identifier
         it, length = self.expression.evaluate(context)
 
-        context.raise_for_loop_limit(length)
 
         if self.expression.cols is None:
             cols = length
@@ -88,7 +87,7 @@ class TablerowNode(Node):
         character_count += buffer.write('<tr class="row1">\n')
         _break = False
 
-        with context.extend(namespace):
+        with context.loop_iterations(length), context.extend(namespace):
             for item in drop:
                 namespace[name] = item
                 character_count += buffer.write(f'<td class="col{drop.col}">')
@@ -120,7 +119,6 @@ class TablerowNode(Node):
         name = self.expression.identifier
         it, length = await self.expression.evaluate_async(context)
 
-        context.raise_for_loop_limit(length)
 
         if self.expression.cols is None:
             cols = length
@@ -145,7 +143,7 @@ class TablerowNode(Node):
         character_count += buffer.write('<tr class="row1">\n')
         _break = False
 
-        with context.extend(namespace):
+        with context.loop_iterations(length), context.extend(namespace):
             for item in drop:
                 namespace[name] = item
                 character_count += buffer.write(f'<td class="col{drop.col}">')
